@@ -4,14 +4,16 @@ CONSTANTS
   Conns <- ConnsQ
   Dir <- DirM
   IpOf <- IpM
-  AddrOf <- AddrM
-  ListenOf <- ListenM
+  PortOf <- PortM
+  LPortOf <- LPortM
   KidOf <- KidM
-  IpOfAddr <- IpOfAddrM
+  Plans <- PlansBase
+  PlanTab <- PlanM
+  ListenAsCoded = TRUE
   MaxIn = 2
   MaxPerIp = 1
   MaxOut = 1
-  CheckThenAct = TRUE
+  CheckThenAct = FALSE
   SplitCheck = FALSE
   TrackSnap = TRUE
 VIEW view
